@@ -67,19 +67,23 @@ CLAIM = dict(
           "of `for resource, requirement in ...` = the model's `allocOne` with that fuel, incl. every error and "
           "the order in which KeyError / IndexError / InsufficientResourceError arise and the pointer update "
           "(gen_allocOne; hypotheses: alignments != 0 - the translator does not model ZeroDivisionError - and the "
-          "reservation / alignment dicts hold what the model reads off the constraint list, `Tables`).  So the "
+          "reservation / alignment dicts hold what the model reads off the constraint list, `Tables`); the "
+          "generated constraint collection loop builds exactly such dicts (loop1_step, gen_collect, gen_tables: "
+          "globally_reserved / locally_reserved / alignments answer globalRes / localRes / alignment for every "
+          "resource and chip, incl. the isinstance dispatch, `location is None`, list order and last-align-wins).  So the "
           "over-allocation test, the alignment of every proposal, the reservation bump, the per-chip lookup key "
           "and the re-alignment after a bump are tied to greedy.py by proof.  Still under differential "
-          "correspondence only: the three outer loops (resources of a vertex, vertices of a chip, chips), the "
-          "constraint collection loop and the grouping of placements by chip (their generated definitions exist "
-          "and are difftested, the equalities to allocResources / allocVertices / allocChips / globalRes / "
-          "localRes / alignment / chipOrder are not proved yet) and Machine.__getitem__."),
+          "correspondence only: the three outer loops (resources of a vertex, vertices of a chip, chips) and the "
+          "grouping of placements by chip (their generated definitions exist and are difftested; the equalities "
+          "to allocResources / allocVertices / allocChips / chipOrder, i.e. gen_allocate = allocate as one "
+          "statement, are not proved yet) and Machine.__getitem__."),
     technique="Lean 4 theorems over a hand-written model + differential correspondence + Lean spec as oracle")
 
 THEOREMS = ["overlaps_iff_common", "alloc_sound", "alloc_sound_range", "alloc_unique", "alloc_only_failure",
             "alloc_complete", "alloc_complete_window", "alloc_complete_placer_budget"]
 THEOREMS += ['gen_slices_overlap', 'gen_align']   # translator tie: generated function bodies = model (Props/C05Gen.lean)
-THEOREMS += ['gen_scan', 'loop6_step', 'gen_propose', 'gen_allocOne']   # generated body of greedy.allocate (inner loops) = model
+THEOREMS += ['loop7_step', 'loop8_step', 'gen_scan', 'loop6_step', 'gen_propose', 'gen_allocOne',   # generated body of greedy.allocate (inner loops) = model
+             'loop1_step', 'gen_collect', 'gen_tables']   # generated constraint collection loop = globalRes / localRes / alignment
 
 RULE = ("machines 1-3 x 1-3 with 1-3 resources, per-chip exceptions and dead chips; 1-6 used chips, 0-12 vertices "
         "per chip placed in shuffled (interleaved) order, demands incl. 0 and absent resources; up to 6 global and "
